@@ -23,6 +23,8 @@ func frameGroup(p *core.Prog, rep *core.Report) {
 	wd1WideOffsets(p, rep, bs)
 	cd8CursorInBlock(p, rep, bs)
 	cd9OpenCursor(p, rep, bs)
+	cd10LoopCarriedCursor(p, rep)
+	cd11SizePerChunk(p, rep, hdr)
 	chunkTypeProtocol(p, rep)
 	cd4Framing(p, rep)
 	wr1SingleWrite(p, rep)
@@ -36,6 +38,7 @@ func frameGroup(p *core.Prog, rep *core.Report) {
 	ps8Backend(p, rep)
 	rt2Decoded(p, rep)
 	pool3BufferSingleRelease(p, rep)
+	pool4NoUseAfterRelease(p, rep)
 }
 
 // batchGroup: tagging, sealing, staging and the record pool (batch.go, replay in db.go).
@@ -50,6 +53,7 @@ func batchGroup(p *core.Prog, rep *core.Report) {
 	bt2FlushThenStage(p, rep)
 	bt3FlushLoopComplete(p, rep)
 	bt4StagedIndexed(p, rep)
+	bt4bBucketAppend(p, rep)
 	ps6SealLast(p, rep)
 	stagedOrder(p, rep)
 }
@@ -65,6 +69,9 @@ func mergeGroup(p *core.Prog, rep *core.Report) {
 	m.vf5Hint()
 	m.ps5MergeOrder()
 	m.ps5Adoption()
+	m.ps5Tolerant()
+	m.ps5ScratchOnly()
+	m.mp1MergePath()
 	rp1SkipBelow(p, rep)
 	eof2ScanEnds(p, rep)
 	v := newVF(p, rep)
